@@ -19,6 +19,7 @@ import (
 	"strings"
 	"time"
 
+	"github.com/youzan/ZanRedisDB/node"
 	"zrverif/trace"
 )
 
@@ -34,6 +35,9 @@ type detGen struct {
 	varlen  bool // variable-length / binary / empty sub-keys (pebble only: mem radix finding)
 	hllMix  bool // unrestricted SET on HyperLogLog keys (isolate stage)
 	hllState map[string]string
+	mono     bool     // strictly increasing timestamps
+	syncAny  bool     // any entry may be typed FromClusterSyncer (isolate stage)
+	durs     []string // TTL pool override (real-raft stage: real time, only 1 s and far TTLs)
 	lastDel2 string
 	bigUsed  bool  // at most one oversized value per log
 	hot      []int // entry indexes after which a restart cut is most revealing (a command that is expected to fail in its handler after buffering)
@@ -73,7 +77,11 @@ func (g *detGen) sub(pool ...string) string {
 	return g.pick(pool...)
 }
 func (g *detGen) dur() string {
-	d := []string{"1", "2", "3", "2", "100000"}[g.rng.Intn(5)]
+	pool := []string{"1", "2", "3", "2", "100000"}
+	if g.durs != nil {
+		pool = g.durs
+	}
+	d := pool[g.rng.Intn(len(pool))]
 	n, _ := strconv.ParseInt(d, 10, 64)
 	if n < 1000 {
 		g.expSecs = append(g.expSecs, g.ts/1e9+n)
@@ -89,6 +97,11 @@ var detFields = []string{"f1", "f2", "f3", "f4"}
 // step advances the log clock adversarially: equal nanosecond, +-1 ns, same second, around
 // the second of a pending expiry.  Log time is not monotone.
 func (g *detGen) step() {
+	if g.mono {
+		// strictly increasing log time (no two entries can conflict by timestamp)
+		g.ts += 1 + int64(g.rng.Intn(3))*int64(g.rng.Intn(int(time.Second)))
+		return
+	}
 	switch r := g.rng.Intn(20); {
 	case r < 2:
 	case r < 5:
@@ -374,6 +387,38 @@ func (g *detGen) denseValid() []string {
 	}
 }
 
+// commands registered in kvStoreSM.registerConflictHandlers (an unregistered command is always
+// treated as a conflict by the live path)
+var detConflictChecked = map[string]bool{"del": true, "delifeq": true, "set": true, "setifeq": true, "append": true, "setrange": true,
+	"getset": true, "setnx": true, "incr": true, "incrby": true, "plset": true, "pfadd": true, "setbitv2": true, "setbit": true,
+	"bitclear": true, "bexpire": true, "bpersist": true, "hset": true, "hsetnx": true, "hincrby": true, "hmset": true, "hdel": true,
+	"lpop": true, "lpush": true, "lset": true, "ltrim": true, "rpop": true, "rpush": true, "lclear": true, "lexpire": true, "lpersist": true,
+	"zadd": true, "zincrby": true, "zrem": true, "zremrangebyrank": true, "zremrangebyscore": true, "zremrangebylex": true, "zclear": true,
+	"zexpire": true, "zpersist": true, "sadd": true, "srem": true, "spop": true, "sclear": true, "sexpire": true, "spersist": true,
+	"setex": true, "expire": true, "persist": true}
+
+// syncerCmd: writes of the families the conflict checker knows, on very few keys.
+func (g *detGen) syncerCmd() []string {
+	switch g.rng.Intn(10) {
+	case 0, 1, 2:
+		return []string{"set", g.k("ka", "kb"), g.val()}
+	case 3:
+		return []string{"incr", g.k("ia")}
+	case 4:
+		return []string{"del", g.k("ka", "kb")}
+	case 5:
+		return []string{"hset", g.k("ha"), g.pick("f1", "f2"), g.val()}
+	case 6:
+		return []string{"hdel", g.k("ha"), g.pick("f1", "f2")}
+	case 7:
+		return []string{"sadd", g.k("sa"), g.pick("m1", "m2")}
+	case 8:
+		return []string{"zadd", g.k("za"), g.pick("1", "2"), g.pick("m1", "m2")}
+	default:
+		return []string{"lpush", g.k("la"), g.val()}
+	}
+}
+
 func detAllKeys() detKeys {
 	p := func(names ...string) []string {
 		out := make([]string, len(names))
@@ -418,7 +463,7 @@ func (g *detGen) logKind(n int, kind string, failing bool) []detEntry {
 			i += 2
 			continue
 		}
-		e := detEntry{Ts: g.ts}
+		e := detEntry{Ts: g.ts, Syncer: kind == "syncer" && g.rng.Intn(5) < 3}
 		nc := 1
 		if g.rng.Intn(10) == 0 {
 			nc = 2 + g.rng.Intn(2)
@@ -426,6 +471,9 @@ func (g *detGen) logKind(n int, kind string, failing bool) []detEntry {
 		for c := 0; c < nc; c++ {
 			if kind == "dense" {
 				e.Cmds = append(e.Cmds, g.dense(failing))
+			} else if kind == "syncer" && g.rng.Intn(3) > 0 {
+				// few keys, so that entries from the two clusters meet on the same key
+				e.Cmds = append(e.Cmds, g.syncerCmd())
 			} else {
 				e.Cmds = append(e.Cmds, g.cmd())
 			}
@@ -435,6 +483,15 @@ func (g *detGen) logKind(n int, kind string, failing bool) []detEntry {
 			// 8 MiB limit (accepted at propose, rejected by the apply handler after buffering)
 			g.bigUsed = true
 			e.Cmds = [][]string{{"plset", g.k("ka"), g.val(), g.k("kc"), detBigValue}}
+		}
+		if e.Syncer && !g.syncAny {
+			// narrowed avoid rule of finding C07-syncer-conflict-filter: in the general corpus an entry
+			// is typed FromClusterSyncer only if the conflict filter lets it through on every
+			// replica: one command, of a family with a registered conflict handler, log time
+			// strictly increasing and older than the process (SetSyncerOnly(false) at start)
+			if len(e.Cmds) != 1 || !detConflictChecked[e.Cmds[0][0]] {
+				e.Syncer = false
+			}
 		}
 		for _, c := range e.Cmds {
 			for _, a := range c {
@@ -788,7 +845,15 @@ func detLogEvent(id int, kind, policy string, log []detEntry) trace.M {
 			names = append(names, fmt.Sprintf("%d %s %s %d", i*100+ci, c[0], k, len(c)))
 		}
 	}
-	return trace.M{"ev": "log", "id": id, "kind": kind, "policy": policy, "n": len(log), "cmds": cmds, "names": names}
+	syn := []int{}
+	for i, e := range log {
+		if e.Syncer {
+			for ci := range e.Cmds {
+				syn = append(syn, i*100+ci)
+			}
+		}
+	}
+	return trace.M{"ev": "log", "id": id, "kind": kind, "policy": policy, "n": len(log), "cmds": cmds, "names": names, "syncer": syn}
 }
 
 func detDescribe(log []detEntry, base int64) []string {
@@ -888,10 +953,15 @@ func detsim(args []string) error {
 	straddleSkip := fs.String("straddle-skip", "", "comma separated command names left out of straddle probes (recorded findings)")
 	varlenEvery := fs.Int("varlen", 3, "every n-th log uses variable-length/binary sub-keys and runs on pebble only (0: never)")
 	denseEvery := fs.Int("dense", 3, "every n-th log is batch-dense (0: never)")
+	syncerEvery := fs.Int("syncer", 4, "every n-th log contains entries of the cross-cluster syncer with source-cluster timestamps (0: never)")
+	syncerNonMono := fs.Bool("syncer-nonmono", false, "syncer logs with non-monotone / equal timestamps (isolate stage of finding C07-syncer-conflict-replay)")
 	hllMix := fs.Bool("hllmix", false, "DEL and SET on HyperLogLog keys (exploration of the HLL write cache)")
 	failing := fs.Bool("failing", false, "batch-dense logs contain batchable commands that fail in the apply handler (isolate stage)")
 	fs.Parse(args)
 	detSilence()
+	// what a data node that accepts client writes does at start: the "syncer only" switch is off
+	// and its change time is the start of the process
+	node.SetSyncerOnly(false)
 	rng := rand.New(rand.NewSource(*seed))
 	scratch := os.Getenv("ZR_SCRATCH")
 	engines := strings.Split(*engs, ",")
@@ -919,6 +989,15 @@ func detsim(args []string) error {
 		if *denseEvery > 0 && li%*denseEvery == 0 {
 			kind = "dense"
 			g.varlen = false
+		}
+		if *syncerEvery > 0 && (li+2)%*syncerEvery == 0 && kind == "general" {
+			// log time of a source cluster: a month away from this replica's wall clock
+			kind = "syncer"
+			g.varlen = false
+			g.ts = time.Now().Add(-30*24*time.Hour).UnixNano() + int64(li)*int64(time.Hour)
+			g.mono = !*syncerNonMono
+			g.syncAny = *syncerNonMono
+			g.bigUsed = true
 		}
 		log := g.logKind(*llen, kind, *failing)
 		for _, e := range log {
